@@ -24,4 +24,4 @@ one_prop() {
   done
 }
 export -f one_prop
-for i in $(seq -w 1 20); do echo C$i; done | xargs -P $P -I{} bash -c 'one_prop {}'
+for p in ${PROPS:-C01 C02 C03 C04 C05 C06 C07 C08 C09 C10 C11 C12 C13 C14 C15 C16 C17 C18 C19 C20}; do echo $p; done | xargs -P $P -I{} bash -c 'one_prop {}'
